@@ -7,8 +7,8 @@
     resources in registration order), re-registration replaces the handler in place, call/get/read finds an
     entry iff it is registered, unregister removes exactly the named entries.
   * Part B: lockset soundness for `sync.RWMutex` traces of any length and any number of threads.
-  * Part C: the regenerated access table (`Mcp.Gen.registryAccesses`): every access is guarded, except the two
-    sites of finding D25, which are named exactly.
+  * Part C: the regenerated access table (`Mcp.Gen.registryAccesses`): every access is guarded; the pre-repair
+    records of finding D25 (a literal table) are rejected, with the two unguarded sites named exactly.
 -/
 import Mcp.Model.Registry
 import Mcp.Gen.RegistryLocks
@@ -914,40 +914,28 @@ theorem C12_lockset_sound (tr : List Ev) (x l : Nat) (hv : Valid tr) (hd : Disci
 
 end Lockset
 
-/-! ## Part C — the regenerated access table
+/-! ## Part C — the regenerated access table -/
 
-  GOAL (the full obligation; it does not hold on the current tree because of finding D25):
+/-- **Every access to a registry field is locked.** Over the table regenerated from the current source: every
+    access to a map or order slice of the three managers and to the notification-handler tables sits under its
+    RWMutex in the right mode (write ⇒ `Lock`, read ⇒ `RLock` or `Lock`), is never aliased out of the critical
+    section, or belongs to the constructor. -/
+theorem C12_all_accesses_locked : AllAccessesLocked Mcp.Gen.registryAccesses := by
+  have h : (Mcp.Gen.registryAccesses.all fun a => guarded a) = true := by decide +kernel
+  exact fun a ha => List.all_eq_true.1 h a ha
 
-      theorem C12_all_accesses_locked : AllAccessesLocked Mcp.Gen.registryAccesses := by
-        -- i.e.  ∀ a ∈ Mcp.Gen.registryAccesses, guarded a = true
-        have h : (Mcp.Gen.registryAccesses.all fun a => guarded a) = true := by decide +kernel
-        exact fun a ha => List.all_eq_true.1 h a ha
+/-- The table has no unguarded site at all (same fact, as the list the extractor's consumers read). -/
+theorem C12_no_unguarded_site : unguardedSites Mcp.Gen.registryAccesses = [] := by decide +kernel
 
-  What holds today is the same statement minus the two named D25 sites (`…_partial`), and the exact list of
-  unguarded sites (`C12_unlocked_witness`).  When D25 is repaired (RLock around the map read in `handleGetPrompt`
-  and `handleReadResource`) the witness theorem breaks — on purpose — and the goal above, with exactly this proof,
-  goes through (checked against the table of the repaired tree): replace `…_partial` and `…_witness` by it. -/
-
-/-- Every access to a registry field sits under its mutex in the right mode (write ⇒ `Lock`, read ⇒ `RLock` or
-    `Lock`), is never aliased out of the critical section, or is part of the constructor — except the sites of D25. -/
-theorem C12_all_accesses_locked_partial :
-    ∀ a ∈ Mcp.Gen.registryAccesses, site a ∉ d25Sites → guarded a = true := by
-  have h : (Mcp.Gen.registryAccesses.all fun a => d25Sites.contains (site a) || guarded a) = true := by decide +kernel
-  intro a ha hs
-  have := List.all_eq_true.1 h a ha
-  simp only [Bool.or_eq_true, List.contains_iff_mem] at this
-  rcases this with h1 | h1
-  · exact absurd h1 hs
-  · exact h1
-
-/-- The unguarded accesses are exactly: `handleGetPrompt` reading `prompts`, `handleReadResource` reading
-    `resources` (both index the map with no lock held — D25); hence the full goal is false today. -/
+/-- The bad region (finding D25, repaired): on the access records of the tree before the repair the predicate
+    fails, and the unguarded sites it names are exactly `handleGetPrompt` reading `prompts` and
+    `handleReadResource` reading `resources` — the obligation above is not vacuous, it rejects that code. -/
 theorem C12_unlocked_witness :
-    unguardedSites Mcp.Gen.registryAccesses = d25Sites ∧ ¬ AllAccessesLocked Mcp.Gen.registryAccesses := by
-  have h1 : unguardedSites Mcp.Gen.registryAccesses = d25Sites := by decide +kernel
-  have h2 : (Mcp.Gen.registryAccesses.all fun a => guarded a) = false := by decide +kernel
+    unguardedSites d25Table = d25Sites ∧ ¬ AllAccessesLocked d25Table := by
+  have h1 : unguardedSites d25Table = d25Sites := by decide +kernel
+  have h2 : (d25Table.all fun a => guarded a) = false := by decide +kernel
   refine ⟨h1, fun hall => ?_⟩
-  have : (Mcp.Gen.registryAccesses.all fun a => guarded a) = true := List.all_eq_true.2 hall
+  have : (d25Table.all fun a => guarded a) = true := List.all_eq_true.2 hall
   rw [h2] at this; cases this
 
 /-- Every function touches a registry inside ONE critical section (or not under a lock at all, which the
@@ -1010,7 +998,7 @@ example : Valid [.acqW 1 0, .wr 1 7, .relW 1 0, .acqR 2 0, .acqR 3 0, .rd 2 7, .
     | 1, _ | 5, _ | 6, _ | 10, _ => simp at h; subst h; simp [isWrite, holdsW, holdsAny, stateAt, stepL, Ev.tid]
 
 /-- Without the discipline the conclusion fails — the shape of D25: thread 1 reads the map with no lock
-    (`handleGetPrompt`) while thread 2 writes it under the write lock (`registerPrompt`): a valid trace with a race. -/
+    (`handleGetPrompt` before its repair) while thread 2 writes it under the write lock (`registerPrompt`): a valid trace with a race. -/
 theorem C12_unlocked_read_races :
     Valid [.acqW 2 0, .rd 1 7, .wr 2 7, .relW 2 0] ∧ Race [.acqW 2 0, .rd 1 7, .wr 2 7, .relW 2 0] 7 := by
   constructor
